@@ -259,7 +259,7 @@ def first_words(tier, rnd, shard, nshards):
         rnd.shuffle(ws)
         return [(w, 12) for w in ws]
     out = [(0x1300, 4)]
-    for _ in range(5000):
+    for _ in range(15000):
         r = rnd.random()
         if r < 0.70:
             op = rnd.randrange(4, 16)
@@ -560,7 +560,7 @@ def run(tier, seed, shard, nshards):
     tmp = tempfile.mkdtemp(prefix="c14_", dir="/verif/build/tmp" if os.path.isdir("/verif/build/tmp") else None)
     try:
         run_steps(w, s, tier, seed, shard, nshards, known, survey)
-        n = 25 if tier == "quick" else 250
+        n = 70 if tier == "quick" else 250
         hyp_run(lambda p: run_program(s, tmp, p, known, survey), program(), n, shard_seed(seed, shard, "c14run"), s)
     finally:
         w.close()
